@@ -88,6 +88,11 @@ def build_pool(seed):
         pool.append({"op": "from_bank_code", "cc": cc, "code": code})
         pool.append({"op": "candidates", "cc": cc, "code": code})
         pool.append({"op": "from_bank_code", "cc": cc, "code": code[:-1]})
+    # objects of unknown countries and degenerate texts (only possible without validation): their accessors raise or return ''
+    for text in ("XX001234567890123456", "QQ12ABCD", "", "D", "DE", "12345678", "ZZ99" + "9" * 30):
+        creates.append({"kind": "iban", "text": text})
+        creates.append({"kind": "bban", "cc": text[:2], "text": text[4:]})
+        creates.append({"kind": "bic", "text": text[:11]})
     for cc in ccs:
         creates.append({"kind": "bic", "text": "ABCD" + cc + "2A"})
         pool.append({"op": "bic", "text": "ABCD" + cc + "2AXXX"})
@@ -111,6 +116,9 @@ def build_pool(seed):
                        {"op": "random", "cc": cc, "seed": 3, "cls": "BBAN", "use_registry": False},
                        {"op": "obj", "create": c, "what": "snapshot"}, {"op": "obj", "create": c, "what": "bic"},
                        {"op": "obj", "create": c, "what": "bank"}, {"op": "iban", "text": t, "validate_bban": True}])
+    for text in ("XX001234567890123456", "", "D"):
+        for c in ({"kind": "iban", "text": text}, {"kind": "bban", "cc": text[:2], "text": text[4:]}):
+            groups.append([{"op": "obj", "create": c, "what": w_} for w_ in public_properties(c["kind"]) if w_ not in ("pickle",)])
     # per country: calls of every class that mention the country (BIC with that country code, IBAN, BBAN, their properties)
     for cc in ccs:
         t = g.iban(cc, rng)
